@@ -165,6 +165,11 @@ Definition check_sepa2 (ternary : bool) (M : mat) (rows cols : list nat) (rf cf 
   ((mat_is_zero (block M r1 c2) && rank1 ternary (block M r2 c1)) ||
    (mat_is_zero (block M r2 c1) && rank1 ternary (block M r1 c2))).
 
+(* the number of SP reductions the matrix admits (greedy order; what remains is irreducible) *)
+Definition total_reds (ternary : bool) (m n : nat) (M : mat) : nat :=
+  let '(lr, lc) := sp_greedy_aux (m + n) ternary M (all_true m) (all_true n) in
+  (m + n - (length (live_list lr) + length (live_list lc)))%nat.
+
 Definition judge_sp (rec : list Z) : Z :=
   match (tern <- dbool ;; api <- dZ ;; maxred <- dZ ;; wv <- dbool ;; wr <- dbool ;; wd <- dbool ;; wviol <- dbool ;;
          ws <- dbool ;; x <- dmat ;; rc <- dZ ;; v <- dZ ;; nred <- dZ ;; reds <- dpairs ;;
@@ -176,6 +181,11 @@ Definition judge_sp (rec : list Z) : Z :=
     else
       let truth := sp_greedy tern m n M in
       let unlimited := maxred <? 0 in
+      (* with a bound on the number of reductions: the reported number is SIZE_MAX (-1) exactly when the matrix admits more
+         reductions than the bound, and the number of reductions otherwise *)
+      if negb unlimited && negb (nred =? -2) &&
+         negb (nred =? (if maxred <? Z.of_nat (total_reds tern m n M) then -1 else Z.of_nat (total_reds tern m n M))) then 77
+      else
       (* verdict flag *)
       if wv && (v =? 2) then 71
       else if wv && negb ((v =? 0) || (v =? 1)) then 1
